@@ -6,7 +6,7 @@
      label_at rl k s      s, or k + 1 when relabelling (k = 0-based position in the request)
      req_covers st key req p f k   frame f of plane key belongs to the k-th requested segment and is > 0 at pixel p *)
 From Coq Require Import String ZArith List Bool Lia.
-From HD Require Import Base.Val C02_Model C02_Proofs.
+From HD Require Import Base.Val C02_Model C02_Proofs C02_Proofs_Ext.
 Import ListNotations.
 Open Scope Z_scope.
 
@@ -197,3 +197,182 @@ Proof.
     repeat (destruct Hf as [<-|Hf]; [cbn in Hv |- *; intuition lia|]). contradiction.
 Qed.
 Print Assumptions C02_example_labelmap.
+
+(* ====================================================================== *)
+(* extension: repeated requests, FRACTIONAL combine, refusals, construction, descriptions, end-to-end *)
+
+(* LABELMAP stacked read when the request may name a segment more than once (first_positions step) *)
+Theorem C02_stacked_channel_labelmap_repeats : forall st keys req o d r,
+  wf_labelmap st -> s_ty st = LABELMAP -> wf_opts o -> o_combine o = false -> req <> [] ->
+  zlen req <= 2 ^ s_bits st - 1 ->
+  seg_frame st keys req o = Ok (d, r) ->
+  r = OStack (map (fun key => map (fun s => map (fun v => if v =? s then 1 else 0) (lm_raw st key)) req) keys).
+Proof. exact labelmap_stacked_read_gen. Qed.
+Print Assumptions C02_stacked_channel_labelmap_repeats.
+
+(* ---- FRACTIONAL combine ------------------------------------------------ *)
+Theorem C02_fractional_combine_is_binary_combine : forall st keys req o,
+  wf_fractional_binary st -> o_combine o = true -> o_rescale o = true ->
+  seg_frame st keys req o = seg_frame (binarize st) keys req o.
+Proof. exact fractional_combine_as_binary. Qed.
+Print Assumptions C02_fractional_combine_is_binary_combine.
+
+Theorem C02_combined_pixel_fractional : forall st keys req o d a,
+  wf_fractional_binary st -> wf_opts o -> o_combine o = true ->
+  seg_frame st keys req o = Ok (d, OComb a) ->
+  o_rescale o = true /\
+  Forall2 (fun key plane =>
+    length plane = Z.to_nat (s_npix st) /\
+    forall p, (p < Z.to_nat (s_npix st))%nat ->
+      (nth p plane 0 = 0 <-> forall f k, ~ req_covers st key req p f k) /\
+      (nth p plane 0 <> 0 -> exists f k, req_covers st key req p f k /\
+                                         nth p plane 0 = label_at (o_relabel o) k (fseg f)) /\
+      (forall f k, req_covers st key req p f k -> label_at (o_relabel o) k (fseg f) <= nth p plane 0))
+    keys a.
+Proof. exact fractional_combined_read. Qed.
+Print Assumptions C02_combined_pixel_fractional.
+
+Theorem C02_overlap_refused_fractional : forall st keys req o,
+  wf_fractional_binary st -> wf_opts o -> o_combine o = true -> o_rescale o = true -> o_skip o = false ->
+  (seg_frame st keys req o = Err "RuntimeError"%string <->
+   (forallb (fun s => memz s (s_segs st)) req = true /\
+    (exists d, seg_frame st keys req (mkOpts true (o_relabel o) true true (o_dtype o)) = Ok d) /\
+    exists key p, In key keys /\ (p < Z.to_nat (s_npix st))%nat /\
+                  (2 <= cnt p (join_plane st key (chan_table req true (o_relabel o))))%nat)).
+Proof. exact fractional_overlap_read. Qed.
+Print Assumptions C02_overlap_refused_fractional.
+
+Theorem C02_fractional_combine_needs_rescale : forall st keys req o,
+  s_ty st = FRACTIONAL -> o_combine o = true -> o_rescale o = false ->
+  seg_frame st keys req o = Err "ValueError".
+Proof. exact fractional_combine_needs_rescale. Qed.
+Print Assumptions C02_fractional_combine_needs_rescale.
+
+Theorem C02_fractional_nonbinary_refused : forall st keys req o key f lab,
+  s_ty st = FRACTIONAL -> o_combine o = true ->
+  In key keys -> In (f, lab) (join_plane st key (chan_table req true (o_relabel o))) ->
+  binary_valued (s_maxfrac st) f = false ->
+  exists k, seg_frame st keys req o = Err k.
+Proof. exact fractional_nonbinary_refused. Qed.
+Print Assumptions C02_fractional_nonbinary_refused.
+
+(* ---- refusals: capacity / dtype kind / rescale-needs-float / unknown segment -------- *)
+Theorem C02_argument_checks_refuse : forall st keys req o,
+  args_ok st req o = false -> seg_frame st keys req o = Err "ValueError".
+Proof. exact args_refused. Qed.
+Print Assumptions C02_argument_checks_refuse.
+
+Theorem C02_result_dtype : forall st keys req o d r,
+  seg_frame st keys req o = Ok (d, r) -> d = out_dtype st req o.
+Proof. exact seg_frame_dtype. Qed.
+Print Assumptions C02_result_dtype.
+
+Theorem C02_refusals_binary : forall st keys req o,
+  wf_binary st -> wf_opts o ->
+  (seg_frame st keys req o = Err "ValueError" <-> args_ok st req o = false) /\
+  (forall k, seg_frame st keys req o = Err k -> k = "ValueError"%string \/
+             (k = "RuntimeError"%string /\ o_combine o = true /\ o_skip o = false)) /\
+  (args_ok st req o = true -> o_combine o = false \/ o_skip o = true -> exists r, seg_frame st keys req o = Ok r).
+Proof. exact binary_refusals. Qed.
+Print Assumptions C02_refusals_binary.
+
+Theorem C02_refusals_labelmap : forall st keys req o,
+  wf_labelmap st -> s_ty st = LABELMAP -> wf_opts o -> req <> [] -> zlen req <= 2 ^ s_bits st - 1 ->
+  ((exists r, seg_frame st keys req o = Ok r) <-> args_ok st req o = true) /\
+  (forall k, seg_frame st keys req o = Err k -> k = "ValueError"%string).
+Proof. exact labelmap_refusals. Qed.
+Print Assumptions C02_refusals_labelmap.
+
+(* ---- combine_at_construction ----------------------------------------------- *)
+Theorem C02_combine_at_construction : forall segs d px out,
+  wf_dtype d -> NoDup segs -> (forall s, In s segs -> 0 < s <= dtype_max d) -> zlen segs <= dtype_max d ->
+  1 <= dtype_max d -> segs <> [] ->
+  (forall p v, In p px -> In v p -> 0 <= v) ->
+  ctor_labelmap4 segs d px = Ok out ->
+  Forall2 (fun p v =>
+    (forall k s, nth_error segs k = Some s -> (nth k p 0 = 1 <-> v = s)) /\
+    (v = 0 <-> forall x, In x p -> x = 0)) px out.
+Proof. exact ctor4_exact. Qed.
+Print Assumptions C02_combine_at_construction.
+
+(* ---- descriptions ------------------------------------------------------------ *)
+Theorem C02_describe_exact : forall ds n,
+  (forall d, get_segment_description ds n = Ok d ->
+     d_num d = n /\ exists l1 l2, ds = l1 ++ d :: l2 /\ forall x, In x l1 -> d_num x <> n) /\
+  (get_segment_description ds n = Err "IndexError" <-> forall d, In d ds -> d_num d <> n) /\
+  (forall k, get_segment_description ds n = Err k -> k = "IndexError"%string).
+Proof. exact describe_exact. Qed.
+Print Assumptions C02_describe_exact.
+
+Theorem C02_property_categories_exact : forall ds bg c,
+  In c (property_categories ds bg) <-> exists d, In d ds /\ is_background bg d = false /\ d_cat d = c.
+Proof. exact categories_exact. Qed.
+Print Assumptions C02_property_categories_exact.
+
+Theorem C02_property_types_exact : forall ds bg c,
+  In c (property_types ds bg) <-> exists d, In d ds /\ is_background bg d = false /\ d_type d = c.
+Proof. exact types_exact. Qed.
+Print Assumptions C02_property_types_exact.
+
+Theorem C02_property_lists_no_duplicates : forall seen l, NoDup (first_seen seen l).
+Proof. exact first_seen_NoDup. Qed.
+Print Assumptions C02_property_lists_no_duplicates.
+
+(* ---- end to end: any entry point, any segmentation type --------------------------- *)
+(* "channel k of a stacked result is the mask of the k-th requested segment" *)
+Theorem C02_read_stacked_exact : forall e am st keys req o d r,
+  wf_stored st -> wf_opts o -> NoDup req -> o_combine o = false ->
+  read e am st keys req o = Ok (d, r) ->
+  let A := map (fun key => map (seg_mask st key) req) keys in
+  r = if o_rescale o && segtype_eqb (s_ty st) FRACTIONAL then OStackQ A (s_maxfrac st) else OStack A.
+Proof. exact read_stacked_exact. Qed.
+Print Assumptions C02_read_stacked_exact.
+
+(* "a combined result holds at each pixel the requested segment covering it (its own number, or its 1-based
+   position in the request when relabelling) and 0 where none does, and segments that were not requested
+   never appear" (combined_pixel_spec, C02_Proofs_Ext) *)
+Theorem C02_read_combined_exact : forall e am st keys req o d r,
+  wf_stored st ->
+  (s_ty st = FRACTIONAL -> forall f, In f (s_frames st) ->
+     length (fpix f) = Z.to_nat (s_npix st) /\ forall v, In v (fpix f) -> v = 0 \/ v = s_maxfrac st) ->
+  (forall s, In s (s_segs st) -> 0 < s) ->
+  wf_opts o -> NoDup req -> o_combine o = true ->
+  read e am st keys req o = Ok (d, r) ->
+  exists a, r = OComb a /\
+    Forall2 (fun key plane =>
+      length plane = Z.to_nat (s_npix st) /\
+      forall p, (p < Z.to_nat (s_npix st))%nat ->
+        (nth p plane 0 = 0 <-> forall k s, ~ covered st key req p k s) /\
+        (nth p plane 0 <> 0 -> exists k s, covered st key req p k s /\ nth p plane 0 = label_at (o_relabel o) k s) /\
+        (forall k s, covered st key req p k s -> label_at (o_relabel o) k s <= nth p plane 0))
+      keys a.
+Proof. exact read_combined_exact. Qed.
+Print Assumptions C02_read_combined_exact.
+
+(* ---- non-vacuity of the extension ---------------------------------------------------- *)
+Example C02_example_fractional :
+  wf_fractional_binary ex_frac /\ wf_stored ex_frac /\ NoDup [2; 1] /\
+  read EInstance false ex_frac [2; 1] [2; 1] (mkOpts true true false true None) =
+    Ok (DU 8, OComb [[0;0;0;1]; [2;1;1;0]]) /\
+  read EInstance false ex_frac [1] [2; 1] (mkOpts true false false false None) = Err "ValueError" /\
+  read EInstance false ex_frac [1; 3] [2; 1] (mkOpts true false false true None) = Err "KeyError" /\
+  read_default EInstance true ex_frac [1; 3] (mkOpts false false false true None) =
+    Ok (DF 32, OStackQ [[[100;0;0;0]; [0;100;100;0]]; [[0;0;0;0]; [0;0;0;0]]] 100).
+Proof. exact example_fractional. Qed.
+Print Assumptions C02_example_fractional.
+
+Example C02_example_construction :
+  ctor_labelmap4 [5; 7; 300] (DU 16) [[0;1;0]; [1;0;0]; [0;0;0]; [0;0;1]] = Ok [7; 5; 0; 300] /\
+  ctor_labelmap4 [1; 2] (DU 8) [[1;1]; [0;0]] = Err "ValueError" /\
+  ctor_labelmap4 [1; 2] (DU 8) [[2;0]] = Err "ValueError" /\
+  ctor_labelmap3 [5; 7] (DU 8) [0; 7; 5] = Ok [0; 7; 5] /\
+  ctor_labelmap3 [5; 7] (DU 8) [0; 7; 6] = Err "ValueError".
+Proof. exact example_construction. Qed.
+Print Assumptions C02_example_construction.
+
+Example C02_example_repeated_request :
+  seg_frame (mkStored LABELMAP [1; 7; 300] 16 1 4 0 [mkFrame 1 0 [0;7;300;7]] [1])
+            [1] [7; 300; 7] (mkOpts false false false true None) =
+  Ok (DU 8, OStack [[[0;1;0;1]; [0;0;1;0]; [0;1;0;1]]]).
+Proof. exact example_repeated_request. Qed.
+Print Assumptions C02_example_repeated_request.
